@@ -89,10 +89,28 @@ def _run_lpe(mod, ob, exclude):
     return res
 
 
+class _HardTimeout(BaseException):
+    pass
+
+
+def _on_alarm(signum, frame):
+    raise _HardTimeout()
+
+
 def run_ob(ob):
     """Discharge one obligation (in a worker process)."""
+    import signal
+
     t0 = time.time()
     out = {"id": ob["id"], "harness": ob["harness"], "engine": ob.get("engine", "lpe"), "known": [], "params": ob["params"]}
+    # watchdog: a change under test may make the real code loop forever; the engines only
+    # look at their budget between decisions
+    hard = int(ob.get("budget_s", 60) * 4 + 120)
+    try:
+        signal.signal(signal.SIGALRM, _on_alarm)
+        signal.alarm(hard)
+    except Exception:
+        pass
     try:
         mod = prop_module(ob["prop"])
         fids = {f["id"]: f for f in open_findings(ob["prop"])}
@@ -126,8 +144,15 @@ def run_ob(ob):
         out.update(agg)
         out["solver_s"] = round(agg["solver_s"], 3)
         out["excluded"] = sorted(exclude)
+    except _HardTimeout:
+        out.update(verdict="inconclusive", msg=f"hard timeout: the obligation did not finish within {hard} s (possible non-termination of the code under test)")
     except BaseException as e:  # noqa
         out.update(verdict="error", msg=f"{type(e).__name__}: {e}", tb=traceback.format_exc()[-2000:])
+    finally:
+        try:
+            signal.alarm(0)
+        except Exception:
+            pass
     out["ob_wall_s"] = round(time.time() - t0, 3)
     return out
 
